@@ -232,6 +232,23 @@ def lax_location(case):
 
 
 def reproduce_finding(ctx, f):
+    from chameleon import PageTemplate
+    if f['id'] == 'D-19b':
+        try:
+            return PageTemplate('<p tal:omit-tag="" tal:attributes="x 1 +">y</p>', strict=True)() == 'y'
+        except Exception:
+            return False
+    if f['id'] == 'D-19c':
+        for strict in (True, False):
+            try:
+                PageTemplate('<p tal:content="f(a=1, a=2)"/>', strict=strict)
+                return False
+            except SyntaxError as e:
+                if type(e) is not SyntaxError:
+                    return False
+            except Exception:
+                return False
+        return True
     return None
 
 
